@@ -95,5 +95,19 @@ func msgUnpackCorr(c *Ctx, stream string, b []byte) {
 			return hx(w)
 		})
 		c.OpK(stream, "msg.repack "+arg, re, len(b) > 12, "msg-repack")
+		// and with compression: one map threaded through questions and sections (messageC_roundtrip)
+		rc := guard(func() string {
+			var m dns.Msg
+			if err := m.Unpack(b); err != nil {
+				return "err"
+			}
+			m.Compress = true
+			w, err := m.Pack()
+			if err != nil {
+				return "E"
+			}
+			return hx(w)
+		})
+		c.OpK(stream, "msg.packc "+arg, rc, len(b) > 12, "msg-packc")
 	}
 }
